@@ -126,4 +126,16 @@ CLAIMS = {
         "note": "delay injection is on the caller side (Display impls); no hook inside the library",
         "technique": "runtime monitoring: offline history checker over pipe output (contiguity / exactly-once / order), register history checker, Miri many-seeds and ThreadSanitizer lanes",
     },
+    "C14": {
+        "text": "Every generated document is rendered under 20 terminal configurations (round-robin) and parsed by expat; text per line, denotation of every class used, background layer, default colours, line positions and canvas height are checked against reference VT/SGR/palette models.",
+        "design_ref": "7 C14, 8.7",
+        "note": "class denotation is read from the CSS declarations; Python's expat is the trusted XML parser",
+        "technique": "runtime monitoring: offline checker over recorded outputs (independent XML parse + reference-model expectation)",
+    },
+    "C15": {
+        "text": "The roff document is read back by an independent reader that enforces the request/text structure (so no text line can act as a request) and compared per character with the reference interpretation; exhaustive over colour pairs x effect subsets for one segment, seeded multi-segment texts with roff-special characters.",
+        "design_ref": "7 C15, 8.9",
+        "note": "domain as given by the property: self-contained sequences with 16-colour codes",
+        "technique": RM + " (independent roff reader)",
+    },
 }
